@@ -75,8 +75,9 @@ class Group:
         cmd = ["cargo", "kani", "--target-dir", tdir, "--exact"]
         for h in self.hs:
             cmd += ["--harness", fq(h)]
-        cmd += ["-j", str(self.jobs), "--output-format", "terse", "-Z", "unstable-options",
-                "--export-json", outjson, "--harness-timeout", "%ds" % cap]
+        if self.jobs > 1:
+            cmd += ["-j", str(self.jobs), "--output-format", "terse"]
+        cmd += ["-Z", "unstable-options", "--export-json", outjson, "--harness-timeout", "%ds" % cap]
         cmd += ["-Z", "stubbing"]
         if self.cbmc_args:
             cmd += ["--cbmc-args"] + self.cbmc_args
@@ -152,6 +153,16 @@ class Group:
             else:
                 res["reason"] = "no verdict in kani output (rc=%s%s)" % (rc, ", group timeout" if timed_out else "")
             self.results[h["name"]] = res
+
+
+def run_one(scratch, h, profile, kf, ov_lock):
+    """One cargo-kani process for one harness x profile (own target dir, own memory cap):
+    a crash or OOM of one query cannot take the others down."""
+    g = Group(scratch, profile, [h], 1, h.get("mem_gb", 8), h["name"], cbmc_args=h.get("cbmc_args"), kf=kf)
+    with ov_lock:
+        g.ensure_overlay()
+    g.execute()
+    return g.results[h["name"]]
 
 
 def write_kf(ov, kf):
